@@ -15,7 +15,7 @@ TolOf(c)  == Tol[RowOf(c).res]
 
 (* structural well-formedness of a Cfg event against the catalogue *)
 CfgOK(c) == /\ c.fam \in Families
-            /\ \A g \in {c.groups[i] : i \in 1..Len(c.groups)} : g \in {"EOS", "PDE", "ADM", "RH", "FIN", "INT", "BURN", "ELAS", "HEAT", "SUOL"}
+            /\ \A g \in {c.groups[i] : i \in 1..Len(c.groups)} : g \in {"EOS", "PDE", "ADM", "RH", "FIN", "INT", "BURN", "ELAS", "HEAT", "SUOL", "RAD"}
 
 Groups(c) == {c.groups[i] : i \in 1..Len(c.groups)}
 
@@ -24,7 +24,11 @@ ParSide(c, reg) == IF SideOf(reg) = "l" THEN [gm1 |-> c.par.gm1l, gamma |-> c.pa
                                         ELSE [gm1 |-> c.par.gm1r, gamma |-> c.par.gammar]
 EosClauses(c, e) ==
   LET row == RowOf(c) t == TolOf(c).sl IN
-  CASE e.reg = "vacuum" \/ (row.eos = "suolson" /\ ~Has(e.v, "u")) -> {}            \* documented vacuum: rho = p = 0, the specific energy is undefined
+  CASE e.reg = "vacuum" \/ (row.eos = "suolson" /\ ~Has(e.v, "u")) \/ (row.eos = "radshock" /\ ~Has(e, "wave")) -> {}            \* documented vacuum: rho = p = 0, the specific energy is undefined
+    [] row.eos = "radshock" ->               \* the profile travels with M0 x the upstream sound speed of the USER's gamma, Cv, Tref
+            IF Has(e, "wave")
+            THEN Chk("RAD.wave-speed", Same(e.v.speed, Mul(c.par.M0, PowQ(Mul(Mul(c.par.gamma, c.par.gm1), Mul(c.par.Cv, c.par.Tref)), <<1, 2>>)), 100))
+            ELSE {}
     [] row.eos = "suolson" ->                \* the dimensionless variables follow from the user's opacity, alpha and boundary temperature
             Chk("SUOL.conversion.epsilon", Same(c.par.eps, Div(SL_4a, c.par.alpha), 5))
        \cup Chk("SUOL.conversion.x", Same(c.par.dxdz, Mul(SL_rt3, c.par.opac), 5))
@@ -57,10 +61,10 @@ AmbientClauses(c, e) ==
 (* field laws as term vectors (C13 burn times, C14 heat, C15 Blake, C18 Su-Olson): `eq` entries must balance, *)
 (* `ineq` entries must sum to <= 0.  Which names exist for a family is fixed by Catalogue.FieldLaws; the      *)
 (* clause prefix is the law group of the scan.                                                               *)
-LawPrefix(c) == IF "BURN" \in Groups(c) THEN "BURN." ELSE IF "ELAS" \in Groups(c) THEN "ELAS."
+LawPrefix(c) == IF "RAD" \in Groups(c) THEN "RAD." ELSE IF "BURN" \in Groups(c) THEN "BURN." ELSE IF "ELAS" \in Groups(c) THEN "ELAS."
                 ELSE IF "HEAT" \in Groups(c) THEN "HEAT." ELSE IF "SUOL" \in Groups(c) THEN "SUOL." ELSE "LAW."
 FieldClauses(c, e) ==
-  IF Groups(c) \cap {"BURN", "ELAS", "HEAT", "SUOL"} # {} /\ e.fin
+  IF Groups(c) \cap {"BURN", "ELAS", "HEAT", "SUOL", "RAD"} # {} /\ e.fin
   THEN  Chk(LawPrefix(c) \o "unknown-law", DOMAIN e.eq \subseteq FieldLaws(c.fam).eq /\ DOMAIN e.ineq \subseteq FieldLaws(c.fam).ineq)
    \cup UNION { Chk(LawPrefix(c) \o n, Balanced(e.eq[n], 20 * TolOf(c).bal)) : n \in DOMAIN e.eq }
    \cup UNION { Chk(LawPrefix(c) \o n, Sum(e.ineq[n]) <= TolOf(c).bal) : n \in DOMAIN e.ineq }
